@@ -49,42 +49,11 @@ def mech_validate(verdict, cov, ev, tag, label):
     """Mechanism-level binding: the runs driven by TLC-exported schedules (fixed topology of MC_Shutdown.cfg), with the hook
     events tonic emitted, must be behaviours of Shutdown.tla itself (Trace_ShutdownMech).  Shortfall = DRIFT."""
     runs = [r for r in core.split_runs(ev) if r[0]['stim'].get('class') == 'tlc_schedule']
-    flat = [e for r in runs for e in r]
-    path = os.path.join(core.WORK, tag, f'{label}.mech.ndjson')
-    core.write_ndjson(path, flat)
-    res = core.tlc_mech_trace('Trace_ShutdownMech', path, name=f'{tag}_{label}_mech')
-    drift = 0
-    rounds = 0
-    while (res['matched'] != res['total'] or res['invariant_violated']) and rounds < 5:
-        rounds += 1
-        drift += 1
-        i = max(res['matched'], 0)
-        start = max(k for k in range(min(i, len(flat) - 1) + 1) if flat[k].get('e') == 'reset')
-        verdict.drift.append(f'Shutdown.tla cannot follow run {flat[start].get("run")} at its event {i - start + 1}: {json.dumps(flat[min(i, len(flat) - 1)])[:200]}'
-                             + (f' (model invariant {res["invariant_violated"]})' if res['invariant_violated'] else ''))
-        nxt = [k for k in range(start + 1, len(flat)) if flat[k].get('e') == 'reset']
-        if not nxt:
-            break
-        flat = flat[:start] + flat[nxt[0]:]          # drop the run the model rejected, validate the rest
-        core.write_ndjson(path, flat)
-        res = core.tlc_mech_trace('Trace_ShutdownMech', path, name=f'{tag}_{label}_mech')
-    # the binding must be able to reject: the same trace without its conn_closed events / with a moved broadcast is refused
-    probes = {}
-    for pname, mut in (('drop_conn_closed', lambda e: [x for x in e if not (x.get('e') == 'hook' and x.get('ev') == 'conn_closed')]),
-                       ('early_all_closed', lambda e: _move_all_closed(e))):
-        pp = os.path.join(core.WORK, tag, f'{label}.mech.{pname}.ndjson')
-        mutated = mut(flat)
-        if mutated == flat:
-            probes[pname] = 'not applicable'
-            continue
-        core.write_ndjson(pp, mutated)
-        r2 = core.tlc_mech_trace('Trace_ShutdownMech', pp, name=f'{tag}_{label}_{pname}')
-        if r2['matched'] == r2['total'] and not r2['invariant_violated']:
-            raise ToolError(f'mechanism trace validation accepted the corrupted trace {pname}: the binding is vacuous')
-        probes[pname] = f'rejected at event {r2["matched"] + 1} of {r2["total"]}'
-    cov['mechanism_trace'] = {'runs': len(runs), 'events': res['total'], 'matched': res['matched'], 'tlc_states': res.get('tlc_states'),
-                              'runs_rejected': drift, 'corruption_probes': probes}
-    cov['mechanism_drift'] = f'{drift} runs are not behaviours of the Mechanism model'
+    # the binding must be able to reject: the same trace without its conn_closed events / with a moved all_closed is refused
+    probes = (('drop_conn_closed', lambda e: [x for x in e if not (x.get('e') == 'hook' and x.get('ev') == 'conn_closed')]),
+              ('early_all_closed', _move_all_closed))
+    cov['mechanism_trace'] = core.mech_validate(verdict, runs, 'Trace_ShutdownMech', 'Trace_ShutdownMech.cfg', tag, label, 'Shutdown.tla', probes)
+    cov['mechanism_drift'] = f'{cov["mechanism_trace"]["runs_rejected"]} runs are not behaviours of the Mechanism model'
 
 
 def _move_all_closed(ev):
